@@ -111,7 +111,7 @@ def r20_1(ctx: Ctx) -> None:
 
 
 def r20_2(ctx: Ctx) -> None:
-    from ..flow import exact_condition, nnf, nnf_atoms, nnf_equiv, nnf_not, nnf_or, resolved_facts
+    from ..flow import exact_condition, inline_reaching, nnf, nnf_atoms, nnf_equiv, nnf_not, nnf_or, resolved_facts
     qual = "prepare_output_directory"
     func = ctx.fn(MAIN, qual, inline=True)
     cfg = CFG(func)
@@ -151,10 +151,21 @@ def r20_2(ctx: Ctx) -> None:
             rn = cand
     raising_label = "T" if cfg.n(refusal) in cfg.reach([rn], labels_excluded=["F"]) and \
         cfg.n(refusal) not in cfg.reach([rn], labels_excluded=["T"]) else "F"
+    # edges that establish the stated exemption (results are being reused) may go round the refusal test
+    from ..flow import literals
+    exempt = []
+    for cand in cfg.nodes:
+        if cand.kind != "test" or cand.ast is None or not hasattr(cand.ast, "test") or cand.id == rn:
+            continue
+        for label, polarity in (("T", True), ("F", False)):
+            for expr, truth in literals(cand.ast.test, polarity):
+                if truth and txt(inline_reaching(cfg, cand.ast, expr)).replace('"', "'") == "input_file.endswith('.json')":
+                    exempt.append((cand.id, label))
     for index, call in enumerate(destructive):
         ctx.call_sites += 1
         via_raise = cfg.n(call) in cfg.reach([rn], labels_excluded=["F" if raising_label == "T" else "T"])
-        ok = cfg.dominates(rn, cfg.n(call)) and not via_raise
+        bypass = cfg.n(call) in cfg.reach([cfg.entry], avoid=[rn], edges_excluded=exempt)
+        ok = not bypass and not via_raise and cfg.n(call) in cfg.reach([cfg.entry])
         ctx.ob("R20.2", MAIN, call, qual, f"destructive#{index} {call_name(call)}", ok,
                "every call that deletes or overwrites something in the directory runs only after the refusal test passed",
                form=txt(call)[:80])
@@ -179,6 +190,11 @@ def r20_2(ctx: Ctx) -> None:
             yes.append(form)
         elif isinstance(ret.value, ast.Constant) and ret.value.value is False:
             no.append(form)
+        elif ret.value is not None and not isinstance(ret.value, ast.Constant):
+            # a returned boolean expression: the entry counts on this path exactly when the expression is true
+            value = inline_reaching(icfg, ret, ret.value)
+            yes.append(("and", frozenset([form, nnf(value, True)])))
+            no.append(("and", frozenset([form, nnf(value, False)])))
         else:
             unknown.append(ret)
     if unknown or not yes or not no:
